@@ -108,6 +108,48 @@ def single_history(find, hist, minimize, mode):
     return check_flags_single(find, "rt:C12:SingleObjectiveProgressTracker", desc, list(hist), [x[1] for x in rec.log], minimize, size)
 
 
+class _Boom(Exception):
+    pass
+
+
+def interrupted_batch(find, hist, minimize, fail_at):
+    """One evaluate() call for the whole list whose fitness function raises at invocation #fail_at (0-based)."""
+    rep = IntRep()
+    calls = []
+
+    def ff(p):
+        if len(calls) == fail_at:
+            raise _Boom("fitness function failed")
+        calls.append(p)
+        return list(hist)[p % len(hist)]
+
+    problem = SingleObjectiveProblem(ff, minimize)
+    tracker = single_tracker(problem, [])
+    inds = [Individual(rep.create_genotype(None), rep) for _ in hist]
+    desc = f"SingleObjectiveProgressTracker.evaluate on a batch with fitness {list(hist)}, minimize={minimize}, fitness function raising at invocation #{fail_at + 1}"
+    size = (len(hist), fail_at, sum(hist))
+    try:
+        tracker.evaluate(list(inds))
+    except _Boom:
+        pass
+    except Exception as ex:  # noqa
+        find.add("rt:C12:SingleObjectiveProgressTracker.exception", f"{desc}: raised {type(ex).__name__}: {str(ex)[:80]}", size)
+        return False
+    evaluated = [i for i in inds if i.has_fitness(problem)]
+    if not evaluated:
+        return True
+    vals = {id(i): i.get_fitness(problem).fitness_components[0] for i in evaluated}
+    b = tracker.get_best_individual()
+    if b is None or id(b) not in vals:
+        find.add("rt:C12:SingleObjectiveProgressTracker.best_after_interruption", f"{desc}: {len(evaluated)} individuals were evaluated before the failure but get_best_individual() is {b}", size)
+        return False
+    beaten = [v for v in vals.values() if better(v, vals[id(b)], minimize)]
+    if beaten:
+        find.add("rt:C12:SingleObjectiveProgressTracker.best_after_interruption", f"{desc}: reported best has fitness {vals[id(b)]} but {beaten[0]} was evaluated before the failure", size)
+        return False
+    return True
+
+
 def multi_history(find, hist, d, form_name, mode):
     vec, mk_min = MULTI_FORMS[form_name]
     minimize = mk_min(d)
@@ -262,6 +304,22 @@ def run(tier: str, seed: int) -> dict:
                         nontrivial += len(set(hist)) > 1
                     if len(samples) < 4 and evaluations % 2003 < 7:
                         samples.append(f"history {list(hist)} minimize={d} {mode}: single {'ok' if ok else 'VIOLATION'}, multi(last form) {'ok' if ok2 else 'VIOLATION'}")
+    # near-ties: strict improvements far below any "tolerance" (0.3 vs 0.1 + 0.2, 1 + k * 1e-12) must still be improvements
+    tiny = [0.3, 0.1 + 0.2, 1.0, 1.0 + 1e-12, 1.0 + 2e-12, 1.0 - 1e-12]
+    for hist in list(itertools.permutations(tiny[:2], 2)) + list(itertools.permutations(tiny[2:], 3)):
+        for d in (False, True):
+            for mode in modes:
+                ok = single_history(find, hist, d, mode)
+                evaluations += 1
+                nontrivial += 1
+    # interruption: the fitness function fails in the middle of a batch; whatever was evaluated before the failure must
+    # be reflected by the reported best (the property holds at every point of a search, also the point of a failure)
+    for hist in ((2, 1, 0), (0, 2, 1), (1, 2, 2, 0), (0, 1, 2, 1)):
+        for d in (False, True):
+            for fail_at in range(1, len(hist)):
+                ok = interrupted_batch(find, hist, d, fail_at)
+                evaluations += 1
+                nontrivial += 1
     n_hist = evaluations
 
     # searches
